@@ -11,6 +11,10 @@ def _sizes(tier, k):
 def main(tier, t0):
     tasks = stage_check.tasks_for("C14", tier, scenario="inverse3", sizes=_sizes,
                                   structure_filter=lambda st: st["inverse_ok"] and "ref-tie" not in st["tags"] and st["name"] != "sm-chain")
+    # the same three runs with the classes requested through target_classes (the profile is then initialised per requested class before reading)
+    for name, targets in (("own-links", ["C", "D"]), ("multi-typed-incoming", ["C", "E"]), ("literal-looks-like-instance", ["C", "D"])):
+        tasks += [(m, f, "targets/" + ob, dict(kw, cfg=dict(kw["cfg"] or {}, targets=targets))) for (m, f, ob, kw) in
+                  stage_check.tasks_for("C14", tier, scenario="inverse3", sizes=lambda t, k: [k + 1] if t == "quick" else [k, k + 1, k + 2], structure_filter=lambda st, name=name: st["name"] == name, cfg={})]
     tasks += step_check.tasks("C14", tier)
     sm = step_check.meta("C14")
     return stage_check.main("C14", tier, t0, tasks=tasks, extra_meta=dict(functions_encoded=sm["functions_encoded"], bounds=sm["bounds"], assumptions=sm["assumptions"]),
